@@ -1,2 +1,7 @@
 //! Independent reference implementations (share no code with the `pdf` crate).
 pub mod codec;
+pub mod c06_sec;
+pub mod c06_read;
+pub mod c15_date;
+pub mod c07_walk;
+pub mod c08_content;
